@@ -37,12 +37,78 @@ func runC04(p *Prog, r *Report) {
 	r.Rule("D4-requirer-only-removes", "the requirer restriction only removes rejected nodes")
 	r.Rule("D5-omissions", "tar entries are dropped only for the sanctioned reasons")
 	r.Rule("D6-nodes-immutable", "shared file nodes are never modified after construction")
+	r.Rule("D7-who-may-insert", "view trees are written only by the guarded fill routine (and the root node)")
+	r.Rule("D8-parents-populated", "every entry that reaches the views first gets its implicit parent directories")
 	c04Fill(p, r)
 	c04Ancestor(p, r)
 	c04Whiteouts(p, r)
 	c04Requirer(p, r)
 	c04Omissions(p, r)
 	c17Immutable(p, r, "D6-nodes-immutable")
+	c04WhoInserts(p, r)
+}
+
+// c04WhoInserts: D7 — in package image, a chain layer's tree (field fileNodeTree of chainLayer) is
+// inserted into only by fillChainLayersWithFileNode (whose insertion D1/D2 guard) and by the
+// constant root insert "/"; D8 — in the tar loop every path to the fill call passes
+// populateEmptyDirectoryNodes (for every entry type), and that helper itself fills through the
+// guarded routine.
+func c04WhoInserts(p *Prog, r *Report) {
+	n := 0
+	for _, fn := range p.FuncsIn(imgPkg) {
+		forEachInstr(fn, func(_ *ssa.BasicBlock, _ int, in ssa.Instruction) {
+			c, ok := in.(*ssa.Call)
+			if !ok || !treeCall("Insert")(c) {
+				return
+			}
+			// receiver: <x>.fileNodeTree of which struct?
+			s, f, _, ok := fieldOf(loadAddr(c.Call.Args[0]))
+			if !ok || f != "fileNodeTree" || s != "chainLayer" {
+				return
+			}
+			n++
+			site := fnKey(fn) + ":Insert"
+			switch {
+			case fn.Name() == "fillChainLayersWithFileNode":
+				r.OK("D7-who-may-insert", site, p.Pos(c.Pos()), "the guarded fill routine")
+			default:
+				if k, isC := constString(c.Call.Args[1]); isC && k == "/" {
+					r.OK("D7-who-may-insert", site, p.Pos(c.Pos()), "root node")
+					return
+				}
+				r.Fail("D7-who-may-insert", site, p.Pos(c.Pos()), "a chain layer's view is written outside fillChainLayersWithFileNode: this insertion is not subject to the newest-wins and hidden-under-deleted-ancestor checks, so nodes (e.g. implicit parent directories) reappear beneath a whited-out or replaced directory")
+			}
+		})
+	}
+	r.Instances("D7-who-may-insert", "insertions into chain-layer views", n, 2)
+	tl := p.Func(imgPkg, "fillChainLayersWithFilesFromTar")
+	if tl == nil {
+		r.Undecided("D8-parents-populated", "anchor:fillChainLayersWithFilesFromTar", "-", "not found")
+		return
+	}
+	fa := newFA(p, r, tl)
+	var fill ssa.Instruction
+	forEachInstr(tl, func(_ *ssa.BasicBlock, _ int, in ssa.Instruction) {
+		if isCallTo(in, fp(imgPkg), "", "fillChainLayersWithFileNode") {
+			fill = in
+		}
+	})
+	if fill == nil {
+		r.Fail("D8-parents-populated", fa.key+":fill", p.Pos(tl.Pos()), "the tar loop does not fill the views through fillChainLayersWithFileNode")
+		return
+	}
+	hdr := loopHeaderOf(fill.Block())
+	if hdr == nil {
+		r.Fail("D8-parents-populated", fa.key+":loop", p.Pos(fill.Pos()), "the fill call is not inside the per-entry loop")
+		return
+	}
+	isPop := func(in ssa.Instruction) bool { return isCallTo(in, fp(imgPkg), "", "populateEmptyDirectoryNodes") }
+	fa.noPath("D8-parents-populated", "populate-before-fill", Point{hdr, -1}, instrIs(fill), isPop, nil, "every entry passes populateEmptyDirectoryNodes before it is added to the views", "a tar entry (e.g. a bare directory entry) can be added to the views without its implicit parent directories having been created in the view: the entry is reachable by direct path but its parents do not exist, so listings and walks never reach it")
+	pe := p.Func(imgPkg, "populateEmptyDirectoryNodes")
+	if pe != nil {
+		okF := len(callsTo(pe, fp(imgPkg), "", "fillChainLayersWithFileNode")) > 0
+		r.Check(okF, "D8-parents-populated", fnKey(pe)+":fills-through-guarded-routine", p.Pos(pe.Pos()), "implicit directories are added through fillChainLayersWithFileNode", "implicit parent directories are not added through the guarded fill routine")
+	}
 }
 
 func treeCall(name string) func(c *ssa.Call) bool {
